@@ -67,6 +67,7 @@ P(e, ind) ==
     [] e.k = "lam"   -> "fun(" \o PParams(e.ps) \o "): " \o LamRt(e) \o " {\n" \o PBlock(e.b, ind + 1) \o Indent(ind) \o "}"
     [] e.k = "dot"   -> P(e.e, ind) \o "." \o e.f
     [] e.k = "slit"  -> e.n \o "{ " \o Join([i \in 1..Len(e.fs) |-> e.fs[i].n \o ": " \o P(e.fs[i].e, ind)], ", ", 1) \o " }"
+    [] e.k = "dlit"  -> "Dict[" \o Join([i \in 1..Len(e.kvs) |-> P(e.kvs[i].key, ind) \o " => " \o P(e.kvs[i].val, ind)], ", ", 1) \o "]"
     [] e.k = "letd"  -> "let (" \o Join(e.ns, ", ", 1) \o ") = " \o P(e.e, ind)
     [] e.k = "ford"  -> "for (" \o Join(e.ns, ", ", 1) \o ") in " \o P(e.it, ind) \o " {\n" \o PBlock(e.b, ind + 1) \o Indent(ind) \o "}"
     [] e.k = "try"   -> "try {\n" \o PBlock(e.b, ind + 1) \o Indent(ind) \o "} catch (e9) {\n" \o PBlock(e.cb, ind + 1) \o Indent(ind) \o "}"
@@ -95,9 +96,14 @@ P(e, ind) ==
          \o Indent(ind) \o "}"
 
 PFun(f) == "fun " \o f.n \o "(" \o PParams(f.ps) \o "): " \o f.rt \o " {\n" \o PBlock(f.b, 1) \o "}\n"
+\* user-defined methods (prog.meths, when present): method n(this: T, p: Int): Int { ... }
+Meths(prog) == IF "meths" \in DOMAIN prog THEN prog.meths ELSE <<>>
+PMeth(m) == "method " \o m.n \o "(" \o m.this \o ": " \o m.tt \o (IF m.ps = <<>> THEN "" ELSE ", " \o PParams(m.ps)) \o "): " \o m.rt
+            \o " {\n" \o PBlock(m.b, 1) \o "}\n"
 PrintProg(prog) ==
   (IF prog.uses_enum THEN "enum E1 { A1, B1(Int), C1 }\n" ELSE "")
   \o (IF "uses_struct" \in DOMAIN prog /\ prog.uses_struct THEN "struct P1 { x: Int, y: String }\n" ELSE "")
+  \o Join([i \in 1..Len(Meths(prog)) |-> PMeth(Meths(prog)[i])], "", 1)
   \o Join([i \in 1..Len(prog.funs) |-> PFun(prog.funs[i])], "", 1)
   \o PBlock(prog.main, 0)
 
@@ -123,6 +129,7 @@ S(e) ==
     [] e.k = "lam"   -> "(FunLiteral (FunInfo None [] " \o SParams(e.ps) \o " " \o Hint(LamRt(e)) \o " " \o SList(e.b) \o "))"
     [] e.k = "dot"   -> "(DotAccess " \o S(e.e) \o " " \o e.f \o ")"
     [] e.k = "slit"  -> "(StructLiteral " \o e.n \o " [" \o Join([i \in 1..Len(e.fs) |-> "(Tuple " \o e.fs[i].n \o " " \o S(e.fs[i].e) \o ")"], " ", 1) \o "])"
+    [] e.k = "dlit"  -> "(DictLiteral [" \o Join([i \in 1..Len(e.kvs) |-> "(DictKeyValue " \o S(e.kvs[i].key) \o " " \o S(e.kvs[i].val) \o ")"], " ", 1) \o "])"
     [] e.k = "letd"  -> "(Let (Destructure [" \o Join(e.ns, " ", 1) \o "]) None " \o S(e.e) \o ")"
     [] e.k = "ford"  -> "(ForIn (Destructure [" \o Join(e.ns, " ", 1) \o "]) " \o S(e.it) \o " " \o SList(e.b) \o ")"
     [] e.k = "try"   -> "(Try " \o SList(e.b) \o " e9 " \o SList(e.cb) \o ")"
@@ -149,6 +156,13 @@ S(e) ==
          \o "])"
 
 SFun(f) == "(Fun " \o f.n \o " (FunInfo " \o f.n \o " [] " \o SParams(f.ps) \o " " \o Hint(f.rt) \o " " \o SList(f.b) \o ") CurrentFile)"
+\* the receiver types of generated methods
+HintOf(tt) == CASE tt = "List<Int>" -> "(TypeHint List [(TypeHint Int [])])"
+                [] tt = "Option<Int>" -> "(TypeHint Option [(TypeHint Int [])])"
+                [] tt = "Dict<Int>" -> "(TypeHint Dict [(TypeHint Int [])])"
+                [] OTHER -> Hint(tt)
+SMeth(m) == "(Method (MethodInfo " \o HintOf(m.tt) \o " " \o m.this \o " " \o m.n \o " (UserDefinedMethod (FunInfo " \o m.n \o " [] "
+            \o SParams(m.ps) \o " " \o Hint(m.rt) \o " " \o SList(m.b) \o "))) CurrentFile)"
 EnumSexp == "(Enum (EnumInfo CurrentFile E1 [] [(VariantInfo A1 None) (VariantInfo B1 (TypeHint Int [])) (VariantInfo C1 None)]))"
 \* one S-expression per top-level item, in order
 StructSexp == "(Struct (StructInfo CurrentFile P1 [] [(FieldInfo x (TypeHint Int [])) (FieldInfo y (TypeHint String []))]))"
@@ -156,6 +170,7 @@ UsesStruct(prog) == "uses_struct" \in DOMAIN prog /\ prog.uses_struct
 SexpItems(prog) ==
   (IF prog.uses_enum THEN <<EnumSexp>> ELSE <<>>)
   \o (IF UsesStruct(prog) THEN <<StructSexp>> ELSE <<>>)
+  \o [i \in 1..Len(Meths(prog)) |-> SMeth(Meths(prog)[i])]
   \o [i \in 1..Len(prog.funs) |-> SFun(prog.funs[i])]
   \o [i \in 1..Len(prog.main) |-> S(prog.main[i])]
 
@@ -177,7 +192,7 @@ StrE(s) == [k |-> "str", v |-> s]
 ParenE(e) == [k |-> "paren", e |-> e]
 CallE(f, args) == [k |-> "call", f |-> f, args |-> args]
 MCallE(r, m, args) == [k |-> "mcall", recv |-> r, m |-> m, args |-> args]
-Leaves == {IntE(1), IntE(20), VarE("a"), VarE("b"), StrE("s"), [k |-> "bool", v |-> TRUE]}
+Leaves == {IntE(1), IntE(20), IntE(-3), VarE("a"), VarE("b"), StrE("s"), [k |-> "bool", v |-> TRUE]}
 SampleOps == {"+", "<", "^"}
 RECURSIVE ExprTrees(_)
 ExprTrees(d) ==
@@ -194,8 +209,10 @@ ExprTrees(d) ==
          \cup {[k |-> "ctor", n |-> "Some", args |-> <<e>>] : e \in T}
          \cup {[k |-> "dot", e |-> e, f |-> "x"] : e \in T \ {x \in T : x.k \in {"int", "bin"}}}   \* `1.x` lexes as a float start, `a + b.x` groups differently
          \cup {[k |-> "slit", n |-> "P1", fs |-> <<[n |-> "x", e |-> e], [n |-> "y", e |-> StrE("s")]>>] : e \in T}
+         \cup {[k |-> "dlit", kvs |-> <<[key |-> StrE("s"), val |-> e], [key |-> e, val |-> IntE(1)]>>] : e \in T}
+         \cup {[k |-> "dlit", kvs |-> <<>>]}
 
-SlotExprs == {IntE(1), VarE("a"), BinE("+", VarE("a"), IntE(1)), CallE(VarE("f"), <<VarE("b")>>), ParenE(BinE("<", VarE("a"), VarE("b")))}
+SlotExprs == {IntE(1), IntE(-3), BinE("<", IntE(-1), VarE("a")), VarE("a"), BinE("+", VarE("a"), IntE(1)), CallE(VarE("f"), <<VarE("b")>>), ParenE(BinE("<", VarE("a"), VarE("b")))}
 RECURSIVE StmtTrees(_)
 StmtTrees(d) ==
   LET E == SlotExprs IN
@@ -219,6 +236,11 @@ StmtTrees(d) ==
           \cup {[k |-> "if", c |-> ParenE(BinE("<", VarE("a"), IntE(1))), t |-> b, f |-> <<[k |-> "print", v |-> "e"]>>, else |-> TRUE] : b \in Bodies}
           \cup {[k |-> "if", c |-> VarE("a"), t |-> <<>>, f |-> b, else |-> TRUE] : b \in Bodies}
           \cup {[k |-> "while", c |-> VarE("a"), b |-> b] : b \in Bodies}
+          \* a negative literal directly after a keyword (if / while / match / return above through SlotExprs)
+          \cup {[k |-> "while", c |-> BinE("<", IntE(-3), VarE("a")), b |-> b] : b \in Bodies}
+          \cup {[k |-> "if", c |-> BinE("<", IntE(-1), VarE("a")), t |-> b, f |-> <<>>, else |-> FALSE] : b \in Bodies}
+          \cup {[k |-> "match", s |-> BinE("==", IntE(-2), VarE("a")),
+                 arms |-> <<[v |-> "", bind |-> "", wild |-> TRUE, b |-> b]>>] : b \in Bodies}
           \cup {[k |-> "for", n |-> "i", it |-> [k |-> "list", xs |-> <<IntE(1), IntE(2)>>], b |-> b] : b \in Bodies}
           \cup {[k |-> "match", s |-> VarE("a"),
                  arms |-> <<[v |-> "Some", bind |-> "n", wild |-> FALSE, b |-> b],
